@@ -69,7 +69,11 @@ func (ex *Exec) execCallWith(fr *Frame, st *State, reach string, c *ssa.CallComm
 	if callee == nil {
 		// call of an unknown function value: environment call
 		ex.oblige(fr, "nil", nil, pos, "call of nil function value", reach, mkNot(mkEq(ex.lower(fnVal).term(), "0")))
-		return ex.envCall(fr, st, reach, "funcvalue:"+types.TypeString(c.Value.Type(), nil), sig, args, pos)
+		fname := "func"
+		if n, ok := types.Unalias(c.Value.Type()).(*types.Named); ok {
+			fname = n.Obj().Name()
+		}
+		return ex.envCall(fr, st, reach, "funcvalue."+fname, sig, args, pos)
 	}
 	return ex.callFunction(fr, st, reach, callee, bindings, args, sig, pos)
 }
@@ -155,8 +159,10 @@ func ifaceName(t types.Type) string {
 func (ex *Exec) envCall(fr *Frame, st *State, reach, name string, sig *types.Signature, args []Val, pos token.Pos) Val {
 	ex.assumedUsed["env:"+name] = true
 	ex.lockFreeAtEnv(fr, st, reach, name, pos)
-	ex.logEnv(st, reach, name, args)
-	return packResults(sig, ex.freshResults(st, sig, sanitize(name)))
+	entry := ex.logEnv(st, reach, name, args)
+	res := ex.freshResults(st, sig, sanitize(name))
+	ex.logEnvResults(st, entry, res)
+	return packResults(sig, res)
 }
 
 // ---------------------------------------------------------------------------
